@@ -339,25 +339,33 @@ def firstOcc {α : Type} [DecidableEq α] : List α → List α
   | [] => []
   | a :: t => a :: (firstOcc t).filter (· ≠ a)
 
+def itemRow : Item → Except Err (List Val)
+  | .many vs => .ok vs
+  | .one _ => .error (.unmodelled "flat answer for three columns")
+
+def itemText : Item → Except Err Py.Str
+  | .one (.text s) => .ok s
+  | _ => .error (.unmodelled "chainID that is not a text")
+
 /-- `get_residues` -/
-def get_residues (db : Db) (tn : Py.Str) (kw : List Kw) : Except Err (List (List Val)) := do
-  match ← get db "chainID,resName,resSeq".toList tn kw with
-  | .models _ => throw .typeError                   -- tuples of lists are unhashable
-  | .data items =>
-    let res ← items.mapM (fun it => match it with
-      | .many vs => pure vs
-      | .one _ => throw (Err.unmodelled "flat answer for three columns"))
-    pure (firstOcc res)
+def get_residues (db : Db) (tn : Py.Str) (kw : List Kw) : Except Err (List (List Val)) :=
+  match get db "chainID,resName,resSeq".toList tn kw with
+  | .error e => .error e
+  | .ok (.models _) => .error .typeError                   -- tuples of lists are unhashable
+  | .ok (.data items) =>
+    match items.mapM itemRow with
+    | .error e => .error e
+    | .ok res => .ok (firstOcc res)
 
 /-- `get_chains`: `sorted(set(chains))` -/
-def get_chains (db : Db) (tn : Py.Str) (kw : List Kw) : Except Err (List Py.Str) := do
-  match ← get db "chainID".toList tn kw with
-  | .models _ => throw .typeError
-  | .data items =>
-    let cs ← items.mapM (fun it => match it with
-      | .one (.text s) => pure s
-      | _ => throw (Err.unmodelled "chainID that is not a text"))
-    pure (sortDedup strLt cs)
+def get_chains (db : Db) (tn : Py.Str) (kw : List Kw) : Except Err (List Py.Str) :=
+  match get db "chainID".toList tn kw with
+  | .error e => .error e
+  | .ok (.models _) => .error .typeError
+  | .ok (.data items) =>
+    match items.mapM itemText with
+    | .error e => .error e
+    | .ok cs => .ok (sortDedup strLt cs)
 
 /-- `many2sql.get_all` -/
 def get_all (db : Db) (columns : Py.Str) (kw : List Kw) : Except Err (List Result) :=
@@ -541,9 +549,7 @@ def fixChainID (db : Db) : Db × Except Err Unit :=
   | .error e => (db, .error e)
   | .ok (.models _) => (db, .error .typeError)
   | .ok (.data items) =>
-    match items.mapM (fun it => match it with
-        | .one (.text s) => Except.ok s
-        | _ => .error (Err.unmodelled "chainID that is not a text")) with
+    match items.mapM itemText with
     | .error e => (db, .error e)
     | .ok chainID =>
       let natom := chainID.length
